@@ -86,7 +86,7 @@ def ob_orphan_rule(r, tier, seed):
              'P': lambda: Agg(TY.key, TY.vindex('TStruct'), [mkstr('P')]), 'Lib::P': lambda: Agg(TY.key, TY.vindex('TStruct'), [mkstr('Lib::P')]), 'Other::P': lambda: Agg(TY.key, TY.vindex('TStruct'), [mkstr('Other::P')])}
     r.bounds = 'current package in %s; impl of trait %s for a type in %s (empty impl block, trait without methods)' % (pkgs, traits, sorted(types))
     r.assumptions = ['Ty::from_hir, validate_ty, resolve_trait_name replaced by stubs returning the chosen type / nothing / the chosen trait name; is_local_name and is_local_nominal_type run for real',
-                     'oracle (orphan rule): the impl is rejected with an orphan-rule diagnostic iff the trait is not local AND the type is not a local nominal type; builtin and structural types (int32, tuples, Ref, Vec) are never local']
+                     'oracle (coherence): after an accepted impl a second impl block for the same trait and type must be answered with a diagnostic', 'oracle (orphan rule): the impl is rejected with an orphan-rule diagnostic iff the trait is not local AND the type is not a local nominal type; builtin and structural types (int32, tuples, Ref, Vec) are never local']
     cur = {}
     W.stubs['validate_ty'] = lambda ex, a: UNIT
     W.stubs['resolve_trait_name'] = lambda ex, a: some(Agg('tuple', 0, [mkstr(cur['trait']), Ref(cur, 'genv')]))
@@ -105,6 +105,11 @@ def ob_orphan_rule(r, tier, seed):
         h = {0: penv, 1: Agg(DI.key, 0, [PyVec([])]), 2: ib, 3: Opaque('ident'), 4: Opaque('hir_table')}
         ex.call('typer::toplevel::define_trait_impl', [Ref(h, 0), Ref(h, 1), Ref(h, 2), Ref(h, 3), Ref(h, 4)])
         msgs = [ms.pystr(field(DG, d, 'message')) for d in h[1].fields[0].items]
+        # a second implementation block of the same trait for the same type (e.g. in another file of the package): coherence demands a diagnostic
+        ib2 = Agg(IB.key, 0, [{'attrs': PyVec([]), 'generics': PyVec([]), 'trait_name': some(Opaque('ident')), 'for_type': Opaque('typeexpr'), 'methods': PyVec([])}[f[0]] for f in IB.variants[0].fields])
+        h[5] = ib2; h[6] = Agg(DI.key, 0, [PyVec([])])
+        ex.call('typer::toplevel::define_trait_impl', [Ref(h, 0), Ref(h, 6), Ref(h, 5), Ref(h, 3), Ref(h, 4)])
+        ex.notes['second'] = [ms.pystr(field(DG, d, 'message')) for d in h[6].fields[0].items]
         return pk, cur['trait'], cur['type'], msgs
     res = e2.explore(r, W, entry, [])
     def local_name(pk, n): return (n.split('::')[0] == pk) if '::' in n else pk in ('Main', 'Builtin')
@@ -119,6 +124,10 @@ def ob_orphan_rule(r, tier, seed):
         if want_orphan != got_orphan and not r.findings:
             r.findings.append(Finding('orphan-impl-accepted' if want_orphan else 'local-impl-rejected', 'package %s: `impl %s for %s` is %s; the orphan rule says it must be %s' % (pk, tr, ty, 'rejected as orphan' if got_orphan else 'accepted', 'rejected' if want_orphan else 'accepted'), {'package': pk, 'trait': tr, 'type': ty}, True,
                                       'diagnostics pushed by the real define_trait_impl MIR (with the real is_local_name / is_local_nominal_type): %s' % msgs[:2]))
+        second = (p.notes or {}).get('second', [])
+        if not got_orphan and not want_orphan and not second and not any(f.key == 'duplicate-impl-accepted' for f in r.findings):
+            r.findings.append(Finding('duplicate-impl-accepted', 'package %s: a second `impl %s for %s` is accepted without a diagnostic - two implementations for one (trait, type) pair' % (pk, tr, ty), {'package': pk, 'trait': tr, 'type': ty}, True,
+                                      'the real define_trait_impl MIR, called twice for the same trait and type, pushes no diagnostic the second time'))
     r.samples = []
 
 def obligations_c16():
